@@ -279,6 +279,10 @@ class Engine(ExprMixin, StmtMixin, CallMixin, BuiltinMixin, EngineBase):
     def sp_charat(self, node, p):
         return self.bind(self.ev_list(node.args, p), lambda q, vs: [(q, VStr(z3.SubString(vs[0].z, vs[1].z, 1)))])
 
+    def sp_ir_clean(self, node, p):
+        """ir_clean(): no possibly-IR-mutating call on an unmodelled receiver happened on this path (lenient mode)."""
+        return [(p, VBool(z3.BoolVal(p.ghost.get("$ir_dirty") is None)))]
+
     def sp_some(self, node, p):
         """some(x): the payload of an optional (meaningful only where `x is not None` is also stated)."""
         return self.bind(self.ev(node.args[0], p), lambda q, v: [(q, v.val if isinstance(v, VOpt) else v)])
@@ -371,6 +375,7 @@ class Engine(ExprMixin, StmtMixin, CallMixin, BuiltinMixin, EngineBase):
         fn.ghost = t.ghost
         fn.ghost_init = t.ghost_init
         fn.yield_spec = t.yield_spec
+        fn.local_containers = getattr(t, "local_containers", ())
         fn._ghost_hits = set()
         if t.node is not None:
             fn.node = t.node
